@@ -4,4 +4,5 @@ let () =
   | [| _; "kv" |] -> Run_kv.run ()
   | [| _; "app" |] -> Run_app.run ()
   | [| _; "ms" |] -> Run_ms.run ()
+  | [| _; "keys" |] -> Run_keys.run ()
   | _ -> prerr_endline "usage: modelrun <engine> < ops"; exit 2
